@@ -500,6 +500,15 @@ def size0_probe(py4hw):
 CONTAINERS = ['top', 'wrap', 'wrap2', 'split']          # split: decoder in one wrapper, encoder in another
 ORDERS = ['dec-enc', 'enc-dec']
 SIM_POINTS = ['none', 'empty', 'between', 'empty+between']   # when the simulator is obtained (and used) before the circuit is complete
+# clock domains: 'sys' = everything on the system clock; 'dut_gated' = a DUT (py4hw.Counter) in a derived clock domain enabled by the
+# decoder's clk_pulse (createHILUART / tb_VitisKernelPlatform pattern): K<n>; must advance it by exactly n, O0? reads it back;
+# 'codec_gated' = the codec itself in a derived domain with an enable schedule, producer / consumer / observer act on enabled cycles only
+# and nothing of the codec may change in a disabled cycle.  drv_wire: the derived ClockDriver is created with / without a clock wire.
+CLOCKINGS = ['sys', 'dut_gated', 'codec_gated', 'dut_gated', 'sys', 'codec_gated']
+
+
+class SpecViolation(Exception):
+    pass
 
 
 def history_cases(rng, n):
@@ -510,6 +519,7 @@ def history_cases(rng, n):
     for i in range(n):
         c, o, s = base[i % len(base)]
         out.append({'container': c, 'order': o, 'sim_points': s, 'pattern': list(PACINGS[(i * 5 + 2) % len(PACINGS)]),
+                    'clocking': CLOCKINGS[i % len(CLOCKINGS)], 'drv_wire': (i // 3) % 2 == 1, 'drv_when': ['early', 'late'][(i // 2) % 2],
                     'seed': rng.randint(0, 1 << 30)})
     return out
 
@@ -524,6 +534,8 @@ def run_codec_history(py4hw, hist):
             import py4hw.emulation.HILWrapperUART as H
             hw = py4hw.HWSystem()
             cont = hist['container']
+            clocking = hist.get('clocking', 'sys')
+            if clocking == 'codec_gated' and cont == 'top': cont = 'wrap'      # the HWSystem itself owns the system clock
             if cont == 'top': cd = ce = cw = hw
             elif cont == 'wrap': cd = ce = cw = py4hw.Logic(hw, 'hil')
             elif cont == 'wrap2': cd = ce = cw = py4hw.Logic(py4hw.Logic(hw, 'board'), 'hil')
@@ -537,10 +549,44 @@ def run_codec_history(py4hw, hist):
             w.update(vin=cw.wire('resp_v', wvin), size=cw.wire('resp_size', 8), ser_ready=cw.wire('ser_ready', 1),
                      ser_valid=cw.wire('ser_valid', 1), ser_v=cw.wire('ser_v', 8))
         outputs = [(rng.randint(0, (1 << wvin) - 1), rng.choice([1, 2, 4, 8, rng.randint(MIN_K, 10)])) for _ in range(8)]
-        st = {'dec': None, 'enc': None, 'events': [], 'rx': [], 'cycles': 0}
+        st = {'dec': None, 'enc': None, 'events': [], 'rx': [], 'cycles': 0, 'count': None, 'exp_count': 0}
         rdy = ready_source(tuple(hist['pattern']), rng, w['ser_valid'])
+        CNT_W = 16
+        en = None
+
+        def derived(name, enable):
+            with quiet():
+                clkw = hw.wire(name + '_net', 1) if hist.get('drv_wire') else None
+                return py4hw.ClockDriver(name, base=hw.clockDriver, enable=enable, wire=clkw)
+
+        def gate_codec():
+            drv = derived('uart_clk', en)
+            for box in {id(cd): cd, id(ce): ce}.values(): box.clockDriver = drv
+
+        def add_dut():
+            with quiet():
+                st['count'] = hw.wire('dut_count', CNT_W)
+                rst, inc = hw.wire('dut_rst', 1), hw.wire('dut_inc', 1)
+                inc.put(1)
+                dut = py4hw.Logic(hw, 'dut')
+                py4hw.Counter(dut, 'counter', rst, inc, st['count'])
+            dut.clockDriver = derived('dut_clk', w['clk_pulse'])
+
+        codec_obs = REQ_WIRES + ['ser_valid', 'ser_v']
 
         def step():
+            if en is not None:
+                while rng.random() < 0.45:                      # system cycles in which the codec's domain is disabled
+                    before = [w[n].get() for n in codec_obs]
+                    en.put(0)
+                    with quiet():
+                        hw.getSimulator().clk(1)
+                    st['cycles'] += 1
+                    after = [w[n].get() for n in codec_obs]
+                    if after != before:
+                        raise SpecViolation('an output of the codec changed in a cycle in which its clock domain was disabled: %s -> %s (wires %s)'
+                                            % (before, after, codec_obs))
+                en.put(1)
             r = rdy()
             if w['ser_valid'].get() and r: st['rx'].append(w['ser_v'].get())
             w['ser_ready'].put(r)
@@ -551,6 +597,7 @@ def run_codec_history(py4hw, hist):
             st['events'] += ev_of_row(row)
             if w['set_index_out'].get():
                 v, k = outputs[w['index_out'].get()]
+                if st['count'] is not None and w['index_out'].get() == 0: v, k = st['count'].get(), 4     # output 0 is the DUT
                 w['vin'].put(v); w['size'].put(k)
 
         def send(chars):
@@ -581,13 +628,20 @@ def run_codec_history(py4hw, hist):
                 bad = send(encode([(kind, arg)]))
                 exp_ev = py_expected([(kind, arg)], W)
                 exp_rx = []
+                if kind == 'K' and st['count'] is not None:
+                    st['exp_count'] = (st['exp_count'] + hexval(arg)) % (1 << CNT_W)
                 if kind == 'O' and st['enc'] is not None:
                     v, k = outputs[hexval(arg) % (1 << W['index_out'])]
+                    if st['count'] is not None and hexval(arg) % (1 << W['index_out']) == 0: v, k = st['exp_count'], 4
                     exp_rx = py_response(v, k)
                 settle(len(exp_rx))
                 log.append({'phase': tag, 'cmd': cmds_text([(kind, arg)]), 'events': [list(e) for e in st['events']],
                             'received': ''.join(chr(x) for x in st['rx'])})
+                if st['count'] is not None: log[-1]['dut_count'] = st['count'].get()
                 if bad: return '%s: %s' % (tag, bad)
+                if st['count'] is not None and st['count'].get() != st['exp_count']:
+                    return '%s: after %s the DUT in the clk_pulse-gated domain counted %d clock edges in total, expected %d' % (
+                        tag, cmds_text([(kind, arg)]), st['count'].get(), st['exp_count'])
                 if [list(e) for e in st['events']] != [list(e) for e in exp_ev]:
                     return '%s: command %s decoded as %s, expected %s' % (tag, cmds_text([(kind, arg)]), st['events'], exp_ev)
                 if st['rx'] != exp_rx:
@@ -616,9 +670,9 @@ def run_codec_history(py4hw, hist):
         def some_cmds(with_o):
             cmds = []
             for _ in range(rng.randint(2, 4)):
-                kind = rng.choice('IVK' + ('OOO' if with_o else ''))
-                if kind == 'K': cmds.append(('K', [ord(ch) for ch in '%X' % rng.randint(0, 5)]))
-                elif kind == 'O': cmds.append(('O', [ord(ch) for ch in '%X' % rng.randint(0, 7)]))
+                kind = rng.choice('IVK' + ('OOO' if with_o else '') + ('KK' if st['count'] is not None else ''))
+                if kind == 'K': cmds.append(('K', [ord(ch) for ch in '%X' % rng.randint(0, 9 if st['count'] is not None else 5)]))
+                elif kind == 'O': cmds.append(('O', [ord(ch) for ch in '%X' % (0 if (st['count'] is not None and rng.random() < .5) else rng.randint(0, 7))]))
                 else: cmds.append((kind, random_digits(rng, 6)))
             if with_o and not any(k == 'O' for k, _ in cmds): cmds.append(('O', [ord('%X' % rng.randint(0, 7))]))
             return cmds
@@ -626,15 +680,26 @@ def run_codec_history(py4hw, hist):
         sp = hist['sim_points']
         first, second = ('dec', 'enc') if hist['order'] == 'dec-enc' else ('enc', 'dec')
         bad = None
-        if 'empty' in sp:
+        late = hist.get('drv_when') == 'late'
+        if clocking == 'codec_gated':
+            with quiet():
+                en = hw.wire('uart_en', 1)
+            if not late: gate_codec()
+        if clocking == 'dut_gated' and not late: add_dut()
+        if 'empty' in sp and not (clocking == 'codec_gated' and late):
             for _ in range(2): step()                         # the simulator exists before any block does
         add(first)
+        if clocking == 'codec_gated' and late: gate_codec()   # the domain is assigned after the first block exists
         if 'between' in sp:
             bad = exercise('after the first block', some_cmds(False)) if first == 'dec' else direct_response('after the first block')
         if bad is None:
             add(second)
+            if clocking == 'dut_gated' and late: add_dut()
             bad = exercise('complete circuit', some_cmds(True))
         return {'hist': hist, 'bad': bad, 'log': log, 'cycles': st['cycles'], 'outputs': outputs, 'widths': W}
+    except SpecViolation as ex:
+        del Wire.prepared[:]
+        return {'hist': hist, 'bad': str(ex), 'log': log, 'cycles': 0, 'outputs': [], 'widths': {}}
     except Exception as ex:
         del Wire.prepared[:]
         return {'hist': hist, 'bad': 'the simulation raised %s: %s' % (type(ex).__name__, ex), 'log': log, 'cycles': 0, 'outputs': [], 'widths': {}}
